@@ -729,7 +729,11 @@ pub enum Op {
     SpreadArray { dst: Register, src: Register },
 
     /// Create rest array from remaining arguments
-    CreateRestArray { dst: Register, start_index: u8 },
+    CreateRestArray {
+        dst: Register,
+        iterator: Register,
+        start_index: u8,
+    },
 
     /// Create object rest from source object, excluding specified keys
     /// excluded_keys is a constant index pointing to a Vec<JsString> in the constant pool
